@@ -633,7 +633,7 @@ func (fr *Frame) loopHead(li *loopInfo, st *State, cond string) *State {
 	// 2. havoc what the loop may modify
 	ns := st.Clone()
 	mods := fr.loopWrites(li)
-	for a := range mods.locals {
+	for _, a := range sortedAllocs(mods.locals) {
 		if old, ok := ns.locals[a]; ok {
 			nv := vc.freshVal(a.Comment, old.T)
 			ns.locals[a] = nv
@@ -648,7 +648,8 @@ func (fr *Frame) loopHead(li *loopInfo, st *State, cond string) *State {
 		heldBefore = vc.hget(st, "held", "(Array Int Bool)")
 	}
 	if mods.all {
-		for k, srt := range vc.heapSorts {
+		for _, k := range vc.sortedHeapKeys() {
+			srt := vc.heapSorts[k]
 			if k == "top" || k == "held" {
 				continue
 			}
@@ -657,7 +658,8 @@ func (fr *Frame) loopHead(li *loopInfo, st *State, cond string) *State {
 		}
 		fr.havocAllMark(ns)
 	} else {
-		for k, srt := range vc.heapSorts {
+		for _, k := range vc.sortedHeapKeys() {
+			srt := vc.heapSorts[k]
 			if k == "top" || k == "held" {
 				continue
 			}
@@ -669,9 +671,7 @@ func (fr *Frame) loopHead(li *loopInfo, st *State, cond string) *State {
 				}
 			}
 		}
-		for pfx := range mods.keys {
-			fr.pendingHavoc(ns, pfx)
-		}
+
 	}
 	if mods.allocs || mods.all {
 		t0 := vc.top(st)
@@ -1248,7 +1248,13 @@ func (fr *Frame) typeAssert(st *State, x *ssa.TypeAssert) {
 		vc.ufun(pn, []string{"Int"}, "Bool")
 		// facts for the dynamic-type ids known so far: whether that type implements the asserted interface
 		if ifc, isI := at.Underlying().(*types.Interface); isI {
-			for k, id := range vc.typeIDs {
+			var tks []string
+			for k := range vc.typeIDs {
+				tks = append(tks, k)
+			}
+			sort.Strings(tks)
+			for _, k := range tks {
+				id := vc.typeIDs[k]
 				if dt := vc.typeOfKey[k]; dt != nil {
 					if types.Implements(dt, ifc) {
 						vc.axiomOnce(fmt.Sprintf("(%s %d)", pn, id))
